@@ -138,6 +138,36 @@ func catRender(t vuego.Template, p *Program, canary string) (string, error) {
 	return buf.String(), err
 }
 
+// catStep renders one history step: "name" or "name~alt" (the program with the alternative data set).
+type catEng struct {
+	t vuego.Template
+	v *vuego.Vue
+}
+
+func newCatEng() *catEng {
+	return &catEng{t: catEngine(), v: vuego.NewVue(CatalogFiles.FS())}
+}
+
+func (e *catEng) step(entry, step, canary string) string {
+	name, variant, _ := strings.Cut(step, "~")
+	p := programByName(name)
+	data := p.Data(canary)
+	if variant == "alt" {
+		data = catAlt(canary)
+	}
+	var buf bytes.Buffer
+	var err error
+	switch entry {
+	case "vue":
+		err = e.v.Render(&buf, p.Page, data)
+	case "fragment":
+		err = e.v.RenderFragment(&buf, p.Page, data)
+	default:
+		err = e.t.Load(p.Page).Fill(data).Render(bg, &buf)
+	}
+	return res(buf.String(), err)
+}
+
 func res(out string, err error) string {
 	if err != nil {
 		return "ERR(" + err.Error() + ")" + out
@@ -247,25 +277,28 @@ func (c *c10Case) runHistory(ctx *core.Ctx) {
 	var last string
 	var canaries []string
 	withPlan(&vrtPlan{}, func() {
-		t := catEngine()
+		e := newCatEng()
 		for i, name := range c.Seq {
-			can := fmt.Sprintf("CANARY_%d_%s", i, name)
+			can := fmt.Sprintf("CANARY_%d_%s", i, strings.ReplaceAll(name, "~", "_"))
 			if i == len(c.Seq)-1 {
 				can = "CANARY_LAST"
 			}
 			canaries = append(canaries, can)
 			ctx.Eval(1)
 			ctx.Transition(1)
-			last = res(catRender(t, programByName(name), can))
+			last = e.step(c.Entry, name, can)
 		}
 	})
 	var fresh string
 	withPlan(&vrtPlan{}, func() {
 		ctx.Eval(1)
-		fresh = res(catRender(catEngine(), programByName(c.Seq[len(c.Seq)-1]), "CANARY_LAST"))
+		fresh = newCatEng().step(c.Entry, c.Seq[len(c.Seq)-1], "CANARY_LAST")
 	})
 	ctx.State(1)
 	lastName := c.Seq[len(c.Seq)-1]
+	if c.Entry != "" {
+		lastName += "/" + c.Entry
+	}
 	if last != fresh {
 		ctx.Violation("history-dependent", lastName, "after-"+strings.Join(c.Seq[:len(c.Seq)-1], ","), fmt.Sprintf("after %v the render of %s differs from a fresh engine\n got: %q\nwant: %q", c.Seq[:len(c.Seq)-1], lastName, clip(last, 500), clip(fresh, 500)))
 	}
@@ -356,7 +389,7 @@ func init() {
 		ID:    "C10",
 		Level: "model_checking",
 		Rule: "a catalogue of " + fmt.Sprint(len(Catalog)) + " programs (one per feature, incl. 6 failing ones), all on one file set. (1) map-order: with every map iteration of the vuego module behind a seam, every execution with <=d deviating occurrences (all permutations for <=4 keys, reversal+rotations above) plus two global orders must give the bytes of the ascending-order run; " +
-			"(2) histories: every ordered sequence of <=L programs on one engine, last render compared with a fresh engine, no canary of an earlier render; (3) caller data deep-equal before/after through 4 entry points; (4) frozen and backwards clocks. states = executions whose output was compared; non-trivial = program reaches at least one map iteration / any history",
+			"(2) histories: every ordered sequence of <=L (program, data set) steps - each program with its normal and with an alternative data set that flips every boolean and changes lengths and strings - on one engine through Load().Fill().Render, Vue.Render and Vue.RenderFragment, last render compared with a fresh engine, no canary of an earlier render; (3) caller data deep-equal before/after through 4 entry points; (4) frozen and backwards clocks. states = executions whose output was compared; non-trivial = program reaches at least one map iteration / any history",
 		Bounds:      map[string]string{"quick": "d=1 deviation, L=2 (all ordered pairs)", "thorough": "d=2 deviations, L=3 (all ordered triples)"},
 		Assumptions: []string{"the instrumenter finds every range-over-map and MapKeys call of the vuego module by type (sites listed in the overlay's sites.json)", "map iteration inside dependencies (expr-lang, yaml, goldmark) is not controlled"},
 		Decode:      core.DecodeAs[c10Case](),
@@ -375,19 +408,22 @@ func init() {
 				}
 				emit(&c10Case{Part: "clock", Prog: p.Name})
 			}
-			var rec func(seq []string)
-			rec = func(seq []string) {
-				if len(seq) >= 2 {
-					emit(&c10Case{Part: "history", Seq: append([]string(nil), seq...)})
+			for _, entry := range []string{"", "vue", "fragment"} {
+				var rec func(seq []string)
+				rec = func(seq []string) {
+					if len(seq) >= 2 {
+						emit(&c10Case{Part: "history", Seq: append([]string(nil), seq...), Entry: entry})
+					}
+					if len(seq) == L {
+						return
+					}
+					for _, p := range Catalog {
+						rec(append(seq, p.Name))
+						rec(append(seq, p.Name+"~alt"))
+					}
 				}
-				if len(seq) == L {
-					return
-				}
-				for _, p := range Catalog {
-					rec(append(seq, p.Name))
-				}
+				rec(nil)
 			}
-			rec(nil)
 		},
 	})
 }
